@@ -96,7 +96,10 @@ def optB (s : String) : Option Bool := if s == "T" then some true else if s == "
 def report (st : St) (issues : List String) : St × List Issue :=
   -- C11: after a restart the returned updates must bring the runtime's view in line with the cache
   let issues := issues.flatMap fun e =>
-    if st.restarted && (e.startsWith "C05:runtime-view-differs" || e.startsWith "C05:change-left-pending") then
+    -- ("for all of them": the clause speaks of the containers that hold allocations - a live container the policy cannot
+    -- satisfy after the restart holds none and keeps whatever the saved cache said)
+    if st.restarted && (e.startsWith "C05:runtime-view-differs" || e.startsWith "C05:change-left-pending")
+        && st.snap.grants.any (·.ctr == (e.splitOn " ").getD 1 "") then
       [e, "C11:runtime-view-not-in-line-with-cache-after-restart " ++ e] else [e]
   issues.foldl (fun (acc : St × List Issue) e =>
     -- an issue class already reported before the refused reconfiguration is not its consequence
